@@ -204,7 +204,7 @@ func judgePair(r *h.Run, kind string, p *pair, coreWindow time.Duration) {
 func init() {
 	Register(&Prop{ID: "C06",
 		Meta: Meta{Level: "exploration",
-			Rule: "real net/rpc Client+Serve in two simulated processes; k in [1,8] brokered IDs per run with drawn direction, accept/dial order, gap 0-4.5s and payload size, concurrent Dispense traffic; seeded schedule noise (yields/sleeps at woven points, focus on mux_broker.go), socket latency and short reads; oracle = rendezvous reference model (answer through Dial(n) is id=n with the payload checksum; pairs issued <=2s apart incl. injected delay must both succeed; every Dispense reaches a distinct fresh server object)"},
+			Rule: "real net/rpc Client+Serve in two simulated processes; k in [1,8] brokered IDs per run with drawn direction, accept/dial order, gap 0-4.5s and payload size, concurrent Dispense traffic (up to 6 dispenses of several plugin names whose Server() takes 0-1.2 s and, for two of them, fails); seeded schedule noise (yields/sleeps at woven points, focus on mux_broker.go), socket latency and short reads; oracle = rendezvous reference model (answer through Dial(n) is id=n with the payload checksum; pairs issued <=2s apart incl. injected delay must both succeed; every Dispense reaches a distinct fresh server object)"},
 		Plan: func(tier string, seed uint64, stage int, prev []*h.Result) []*k.Spec {
 			if stage > 0 {
 				return nil
@@ -395,6 +395,10 @@ func runBrokerPairs(r *h.Run, c h.Conf, kind string) {
 		if v := r.Spec.P("reuse", ""); v != "" {
 			// fixed cell: "<h|p><a|d>"
 			hostAccepts, acceptFirst, wait, gap = v[0] == 'h', v[1] == 'a', 4400*time.Millisecond, time.Second
+			if len(v) > 2 && v[2] == 's' {
+				// soon: the ID is used again shortly after its first use
+				wait, gap = 300*time.Millisecond, 100*time.Millisecond
+			}
 		}
 		rid := uint32(1700)
 		rctx := fmt.Sprintf("broker=grpc id-reuse accept-side=%s order=%s", map[bool]string{true: "host", false: "plugin"}[hostAccepts], map[bool]string{true: "accept-first", false: "dial-first"}[acceptFirst])
@@ -485,7 +489,7 @@ func confCases() []map[string]string {
 func init() {
 	Register(&Prop{ID: "C07",
 		Meta: Meta{Level: "exploration",
-			Rule: "real gRPC Client+Serve (no multiplexing) in two simulated processes; k in [1,8] brokered IDs per run, both directions, drawn accept/dial order and gap 0-4.9s; TLS none/AutoMTLS; command launch and custom runner with a container-style (chroot + bind mount) address translation; seeded schedule noise with focus on grpc_broker.go, socket latency/short reads; oracle = the PingPong answer through Dial(n) is id=n, first call succeeds for pairs issued <=2s apart (incl. injected delay)"},
+			Rule: "real gRPC Client+Serve (no multiplexing) in two simulated processes; k in [1,8] brokered IDs per run, both directions, drawn accept/dial order and gap 0-4.9s; in a third of the runs an ID is used a second time after its listener was closed (own server on Broker.Accept, stopped, same ID accepted and dialled again 3.2-4.8 s later in either order); TLS none/AutoMTLS; command launch and custom runner with a container-style (chroot + bind mount) address translation; seeded schedule noise with focus on grpc_broker.go, socket latency/short reads; oracle = the PingPong answer through Dial(n) is id=n, first call succeeds for pairs issued <=2s apart (incl. injected delay)"},
 		Plan: func(tier string, seed uint64, stage int, prev []*h.Result) []*k.Spec {
 			if stage > 0 {
 				return nil
@@ -509,6 +513,18 @@ func init() {
 			}
 			for _, ru := range []string{"ha", "hd", "pa", "pd"} {
 				out = append(out, sp("C07", "fixed-reuse/"+ru, seed, P("tls", "none", "launch", "cmd", "fixed", "1", "dir", "h", "ord", "a", "gap", "0", "reuse", ru)))
+				// the same with the broker's expiry goroutines stalled for up to seconds
+				// (a goroutine that is runnable but does not get to run)
+				ns := 40
+				if tier == "thorough" {
+					ns = 400
+				}
+				for v := 0; v < ns; v++ {
+					s := sp("C07", fmt.Sprintf("fixed-reuse+stall%d/%s", v, ru), seed+uint64(v+1)*7919, P("tls", "none", "launch", "cmd", "fixed", "1", "dir", "h", "ord", "a", "gap", "0", "reuse", ru+[]string{"", "s"}[v%2]))
+					s.Focus = "GRPCBroker.timeoutWait"
+					s.DelayClass = "big"
+					out = append(out, s)
+				}
 			}
 			cases := confCases()
 			out = append(out, seeded("C07", seed, n, func(i int, sd uint64) *k.Spec {
